@@ -31,7 +31,8 @@ func init() {
 				return
 			}
 			g, info := f.Graph(), f.Info()
-			backoff := call("replications/remotewrite.writer.backoff")
+			// w.backoff(…) itself or a local closure bound once to a literal that calls it
+			backoff := core.ThroughLocalLits(f.Decl.Body, call("replications/remotewrite.writer.backoff"))
 			hdrCall := call("replications/remotewrite.writer.waitTimeFromHeader")
 			nVar := 0
 			for _, x := range g.Exits {
